@@ -534,6 +534,9 @@ func sweepValue(b byte, j int) byte {
 
 const c02LinearShapes = 9
 
+// c02LinearCases: the nine shapes plus the very long streams of c02_huge.go.
+var c02LinearCases = c02LinearShapes + len(c02HugeSizes)
+
 func c02Counts(ctx *Ctx) (nTrunc, nSweep, nMulti, nIntact, nShort, nRandom int) {
 	n := len(ctx.Corpus)
 	if ctx.Tier == "thorough" {
@@ -546,7 +549,7 @@ func c02Counts(ctx *Ctx) (nTrunc, nSweep, nMulti, nIntact, nShort, nRandom int) 
 
 func c02Cases(ctx *Ctx) int {
 	a, b, c, d, e, f := c02Counts(ctx)
-	return a + b + c + d + e + f + c02LinearShapes
+	return a + b + c + d + e + f + c02LinearCases
 }
 
 func c02Prefix(ctx *Ctx, i int) []uint64 {
@@ -564,10 +567,10 @@ func c02Prefix(ctx *Ctx, i int) []uint64 {
 		return []uint64{c02Intact}
 	case i < a+b+c+d+e:
 		return []uint64{c02Short, uint64(i - a - b - c - d)}
-	case i < c02Cases(ctx)-c02LinearShapes:
+	case i < c02Cases(ctx)-c02LinearCases:
 		return []uint64{c02Random}
 	default:
-		return []uint64{c02Linear, uint64(i - (c02Cases(ctx) - c02LinearShapes))}
+		return []uint64{c02Linear, uint64(i - (c02Cases(ctx) - c02LinearCases))}
 	}
 }
 
@@ -721,7 +724,11 @@ func c02Run(ctx *Ctx, t *tape.Tape) *report.Violation {
 		return nil
 
 	case c02Linear:
-		return c02LinearCase(ctx, t.Intn(c02LinearShapes))
+		if k := t.Intn(c02LinearCases); k >= c02LinearShapes {
+			return c02HugeCase(ctx, k-c02LinearShapes)
+		} else {
+			return c02LinearCase(ctx, k)
+		}
 
 	case c02Random:
 		hdr := c02Headers[t.Intn(len(c02Headers))]
@@ -1097,14 +1104,16 @@ func init() {
 					"files_read":               s.Counters["files_read"],
 					"exhaustive_short_streams": s.Counters["short_streams"],
 					"random_streams":           s.Counters["random_streams"],
-					"linear_work_measurements_(9 shapes x 4 readers at n and 4n bytes)":              s.Counters["linear_work_measurements"],
+					"linear_work_measurements_(9 shapes x 4 readers at n and 4n bytes)": s.Counters["linear_work_measurements"],
+					"very_long_well_formed_streams_(64 KiB+1 ... 32 MiB+7 bytes)":       s.Counters["huge_streams"],
+					"longest_stream_bytes":                                                           s.Counters["max_bytes_in_one_stream"],
 					"largest_allocation_growth_for_4x_the_input":                                     fmt.Sprintf("%.2fx", float64(s.Counters["max_allocation_growth_x100_for_4x_input"])/100),
 					"largest_stack_growth_while_reading_the_4n_stream_bytes":                         s.Counters["max_stack_growth_bytes_at_4n"],
 					"largest_smaller_of_the_two_doubling_factors_(bound 3.0; linear 2, quadratic 4)": fmt.Sprintf("%.2fx", float64(s.Counters["max_smaller_doubling_factor_x100"])/100),
 					"largest_cpu_time_growth_for_4x_the_input_(thread CPU time, best of 3)":          fmt.Sprintf("%.2fx", float64(s.Counters["max_cpu_time_growth_x100_for_4x_input"])/100),
-					"prefix_comparisons":  s.Counters["prefix_checks"],
-					"calls_delivered":     s.Counters["calls_delivered"],
-					"raster_ops_recorded": s.Counters["raster_ops"],
+					"prefix_comparisons":                                                             s.Counters["prefix_checks"],
+					"calls_delivered":                                                                s.Counters["calls_delivered"],
+					"raster_ops_recorded":                                                            s.Counters["raster_ops"],
 					"reach_probes": map[string]int64{
 						"decode error after >=1 delivered call beyond Reset": s.Counters["probe_error_after_delivered_call"],
 						"multi-fault input still past the header":            s.Counters["multi_past_header"],
